@@ -51,8 +51,10 @@ OPS = {
     "delete": ["two", "one"],
     "erasedups": ["two"],
     "unlock": ["stale"],
+    # a read by index from disk (readers queue up with the flushers), then an append and a flush
+    "read-flush": ["one"],
 }
-QUICK_OPS = {"flush-bg": ["one", "empty-session"], "flush-exit": ["one"], "delete": ["two"], "erasedups": ["two"], "unlock": ["stale"]}
+QUICK_OPS = {"flush-bg": ["one", "empty-session"], "flush-exit": ["one"], "delete": ["two"], "erasedups": ["two"], "unlock": ["stale"], "read-flush": ["one"]}
 
 _ROOT = None
 _XSH = None
@@ -117,6 +119,17 @@ def _run_op(op, datadir):
     elif op == "unlock":
         gc = J.JsonHistoryGC.__new__(J.JsonHistoryGC)
         gc.files(only_unlocked=True)
+    elif op == "read-flush":
+        h = J.JsonHistory(filename=sess, sessionid="sess", buffersize=10, gc=False, save_cwd=False)
+        h._len = 2  # the session file of this pre-state holds two saved commands
+        try:
+            h.inps[0]  # read from disk; a failing read may raise - it must not wedge what follows
+        except Exception:  # noqa: BLE001
+            pass
+        h.append({"inp": "new1", "rtn": 0, "ts": [4500.0, 4500.5]})
+        t = h.flush()
+        if t is not None and t.ident is not None:
+            t.join()
     else:
         raise AssertionError(op)
 
@@ -144,6 +157,10 @@ def _child(op, state, case, want_log=False):
             devnull = os.open(os.devnull, os.O_WRONLY)
             os.dup2(devnull, 1)
             os.dup2(devnull, 2)
+            import signal
+
+            signal.signal(signal.SIGALRM, signal.SIG_DFL)
+            signal.alarm(40)  # an operation that never returns ends here (reported as a hang)
             try:
                 _run_op(op, casedir)
             except BaseException as e:  # noqa: BLE001
@@ -207,6 +224,8 @@ def _run_case(item):
     shutil.rmtree(d, ignore_errors=True)
     viols = []
     mode, idx, arg = case
+    if rc == -14:  # SIGALRM: the operation never returned
+        viols.append({"key": f"{op}:hang:{mode}:{log[idx][0] if idx < len(log) else 'end'}", "clause": "a failure while saving never damages what was already saved (later saves still complete)", "case": {"op": op, "state": state, "fault": [mode, idx, arg], "oplog": [list(x) for x in log]}, "observed": "the operation did not return within 40 s", "expected": "it completes or raises"})
     opkind = log[idx][0] if idx < len(log) else "end"
     opfile = log[idx][1] if idx < len(log) else None
     for name in sorted(set(pre) | set(post) | set(got)):
